@@ -553,6 +553,8 @@ fn record_strategy(abc: Abc, format: Format) -> BoxedStrategy<RecModel> {
                         2 => (0u32..=100_000).prop_map(|x| x.to_string()),
                         2 => (0u32..=9999, 0u32..=999).prop_map(|(a, b)| format!("{}.{:03}", a, b)),
                         1 => (0u32..=99).prop_map(|a| format!("{}.5", a)),
+                        // integers beyond the 24-bit significand of f32: the cell is the nearest f32 of the number as written
+                        1 => prop_oneof![any::<u32>(), (1u32 << 24)..=(1u32 << 27), Just(40000015u32), Just(16777217u32), Just(u32::MAX)].prop_map(|x| x.to_string()),
                     ];
                     proptest::collection::vec(proptest::collection::vec(cell, w), ns).boxed()
                 }
@@ -675,7 +677,7 @@ impl Sub for RoundTrip {
         "roundtrip"
     }
     fn rule(&self) -> &'static str {
-        "model list of 1..40 (quick) / ..400 (thorough) records -> own writer per format (JASPAR raw, JASPAR 2016, TRANSFAC, UniPROBE; DNA and protein where supported; ids / accession / name / description present or absent incl. multi-byte UTF-8; width 1..30; counts to u32::MAX; symbol lines / columns in any order and possibly missing; separator runs of blanks and tabs; LF or CRLF; optional VV block, XX lines, blank lines where the format allows) -> bytes -> reader over 3 generated chunkings (1-byte chunks, fixed, cyclic patterns, BufReader capacity 1..8192, whole); records read must equal the model (count, order, every field, every cell, unnamed columns 0), the by-value / derived accessors (into_matrix, CountMatrix::from(record), TRANSFAC to_counts for integral data) must agree with the matrix, and then None twice; non-trivial = >= 2 records and a chunking whose chunks are shorter than the file"
+        "model list of 1..40 (quick) / ..400 (thorough) records -> own writer per format (JASPAR raw, JASPAR 2016, TRANSFAC, UniPROBE; DNA and protein where supported; ids / accession / name / description present or absent incl. multi-byte UTF-8; width 1..30; counts to u32::MAX in every count format (TRANSFAC: also decimals); symbol lines / columns in any order and possibly missing; separator runs of blanks and tabs; LF or CRLF; optional VV block, XX lines, blank lines where the format allows) -> bytes -> reader over 3 generated chunkings (1-byte chunks, fixed, cyclic patterns, BufReader capacity 1..8192, whole); records read must equal the model (count, order, every field, every cell, unnamed columns 0), the by-value / derived accessors (into_matrix, CountMatrix::from(record), TRANSFAC to_counts for integral data) must agree with the matrix, and then None twice; non-trivial = >= 2 records and a chunking whose chunks are shorter than the file"
     }
     fn cases(&self, tier: Tier) -> u64 {
         tier.pick(20_000, 400_000)
